@@ -166,7 +166,7 @@ func runC04R1(c *eng.Ctx, r *eng.RuleCtx) {
 			if !ok || eng.CalleeOf(info, cl) != backoffFn || len(cl.Args) != 1 {
 				return false
 			}
-			a, ok := ast.Unparen(cl.Args[0]).(*ast.CallExpr)
+			a, ok := ast.Unparen(resolveLocal(info, worker.Lit.Body, cl.Args[0])).(*ast.CallExpr)
 			if !ok || eng.CalleeOf(info, a) != getFC {
 				return false
 			}
@@ -613,8 +613,15 @@ func runC04R6(c *eng.Ctx, r *eng.RuleCtx) {
 				continue
 			}
 			if cl, isC := ex.(*ast.CallExpr); isC {
-				if sel, isS := ast.Unparen(cl.Fun).(*ast.SelectorExpr); isS && eng.SelObj(info, sel.X) == types.Object(v) && (sel.Sel.Name == "Truncate" || sel.Sel.Name == "Round") {
-					continue
+				if sel, isS := ast.Unparen(cl.Fun).(*ast.SelectorExpr); isS && (sel.Sel.Name == "Truncate" || sel.Sel.Name == "Round") {
+					if eng.SelObj(info, sel.X) == types.Object(v) {
+						continue
+					}
+					// (initialDelay + a + b).Truncate(step)
+					if b, isB := ast.Unparen(sel.X).(*ast.BinaryExpr); isB && b.Op == token.ADD && isSumWithInit(b) {
+						adds = true
+						continue
+					}
 				}
 				if mc := builtinCall(info, ex, "max"); mc != nil {
 					hasInit := false
